@@ -74,6 +74,15 @@ def classify(case, ios, findings):
             if g not in used and '-DRC-' in g and (v[0], sorted(map(tuple, v[1]))) in tg:
                 hit.append('spare_equal_generated_group')
                 break
+    if 'equal_groups_on_device' in findings:
+        tg = set((tuple(v[0]), tuple(sorted(map(tuple, v[1])))) for v in tgt['groups'].values())
+        seen = {}
+        for g, v in dev['groups'].items():
+            seen.setdefault((tuple(v[0]), tuple(sorted(map(tuple, v[1])))), []).append(g)
+        for key, names in seen.items():
+            if len(names) > 1 and key in tg and any('-DRC-' in n for n in names):
+                hit.append('equal_groups_on_device')
+                break
     return hit
 
 
